@@ -123,6 +123,16 @@ def _front(a):
            "bad": [repr(e) for e in bad[:5]]}
     res["writes"] = sorted(written_fields(p, I))
     res["iff"] = field(p, I, st, ma, "pending_edge_interrupt")
+    # frame: without a pending register or flag commit, an edge at this word leaves all eight registers (the flag register
+    # with its interrupt-enable bit included) exactly as they were - registers change only through the commit stage
+    regs0 = Arr([Opaque("R%d" % k) for k in range(8)])
+    ovf = machine_overrides(p, a, "Running", False, Opaque("IR"), Opaque("LBR"),
+                            extra={"pending_register_write": En({0: ()}), "pending_flag_write": En({0: ()}),
+                                   "register.content": regs0})
+    stf, maf, rf = run_edge(p, I, ovf)
+    regs1 = field(p, I, stf, maf, "register.content")
+    res["regs_kept"] = (regs1 == regs0) and rf is not D.BOT
+    res["regs_after"] = repr(regs1)[:200]
     if kind[0] != "load":
         # without a pending register commit: can this edge halt the machine?
         ov3 = machine_overrides(p, a, "Running", False, Opaque("IR"), Opaque("LBR"),
